@@ -67,7 +67,9 @@ def build(lengths, variant, share):
 
     members = [MazeDataset(cfg(j, l), [maze(j, i) for i in range(l)]) for j, l in enumerate(lengths)]
     cfgs = [ds.cfg if share else cfg(j, l) for j, (ds, l) in enumerate(zip(members, lengths))]
-    coll = MazeDatasetCollection(cfg=MazeDatasetCollectionConfig(name="coll", maze_dataset_configs=cfgs), maze_datasets=members)
+    callers_list = list(members)
+    coll = MazeDatasetCollection(cfg=MazeDatasetCollectionConfig(name="coll", maze_dataset_configs=cfgs), maze_datasets=callers_list)
+    coll._c16_callers_list = callers_list  # the caller's own list object (harness bookkeeping only)
     concat = [(j, i, maze(j, i)) for j, l in enumerate(lengths) for i in range(l)]
     return coll, concat
 
@@ -224,7 +226,7 @@ def check_case(res, lengths, variant, share):
 # The per-case check above asks its questions in one fixed order. Here every sequence of observations up to a depth is run
 # on a fresh collection (all orders, with repetition): a lazily cached answer computed by one observation must not change
 # what a later one returns. Reference = the same list concatenation for every step.
-SEQ_OPS = ["len", "items", "items_rev", "items_zigzag", "mazes", "lengths", "n_mazes", "to_fname", "update_self_config", "getitem_last"]
+SEQ_OPS = ["len", "items", "items_rev", "items_zigzag", "mazes", "lengths", "n_mazes", "to_fname", "update_self_config", "getitem_last", "caller_appends", "caller_reverses"]
 
 
 def seq_vectors(tier):
@@ -270,6 +272,15 @@ def seq_step(coll, concat, lengths, op, variant):
         return None
     if op == "to_fname":
         coll.cfg.to_fname()
+        return None
+    if op in ("caller_appends", "caller_reverses"):
+        # the caller goes on using the list it built the collection from: the collection keeps the members it was given
+        lst = getattr(coll, "_c16_callers_list", None)
+        if lst is not None:
+            if op == "caller_appends":
+                lst.append(lst[0])
+            else:
+                lst.reverse()
         return None
     if op == "update_self_config":
         coll.update_self_config()
@@ -333,7 +344,7 @@ def run(ctx):
     )
     ctx.rule = ("every member-length vector up to the bound (all zero patterns included), member j on its own grid size, every index "
                 "0 <= i <= len, four constructions (declared / shrunk-by-one member counts x shared / copied member configs); "
-                "every sequence of up to 3 observations over 10 observation kinds (all orders, with repetition) on fresh collections of 10 (15) representative vectors; "
+                "every sequence of up to 3 observations over 10 observation kinds and 2 caller actions (all orders, with repetition) on fresh collections of 10 (15) representative vectors; "
                 "distinct = distinct (vector, construction, index), (vector, construction) and (vector, construction, observation sequence)")
     ctx.exhaustive = True
     ctx.assumptions += ["member mazes are fixed comb-tree mazes with a shortest-path solution (maze content plays no role in the indexing code)",
